@@ -52,13 +52,13 @@ theorem unique_names_never_reused (cfg : Cfg ρ) (hr : cfg.Repaired) (h : List (
 
 /-- A message with a destination other than the bus, sent by a live connection `i`: the step's
 deliveries are exactly one - to the connection owning the destination at that step, carrying the
-message with the sender replaced by `i`'s unique name - or none at all when nobody owns the name.
-Nothing else is delivered to anybody in that step. -/
+message as re-marshalled by the bus under `i`'s unique name (`remarshal`, see section 3) - or none at all
+when nobody owns the name.  Nothing else is delivered to anybody in that step. -/
 theorem unicast_exact (cfg : Cfg ρ) (hr : cfg.Repaired) (h : List (Event ρ)) (i : ConnId) (m : Msg)
     (op : BusOp ρ) (d : Name) (ha : Addressed m d) (hl : Live (final cfg State.init h) i) :
     let r := step cfg (final cfg State.init h) (.msg i m op)
-    (∃ n, nameOf r.1 i = some n) ∧
-    (∀ j, Owns r.1 j d → r.2.deliveries = [⟨j, .fwd i (withSender m (nameOf r.1 i))⟩]) ∧
+    ∃ n, nameOf r.1 i = some n ∧
+    (∀ j, Owns r.1 j d → r.2.deliveries = [⟨j, .fwd i (remarshal m n)⟩]) ∧
     ((∀ j, ¬ Owns r.1 j d) → r.2.deliveries = []) :=
   unicast_exact_from hr (final_inv hr Inv.init h) i m op d ha hl
 
@@ -71,32 +71,62 @@ theorem owner_unique (cfg : Cfg ρ) (hr : cfg.Repaired) (h : List (Event ρ)) (d
 /-! ## 3. the sender is the true one, everything else is unchanged -/
 
 /-- Every forwarded or routed message that any connection receives in any step is the message of
-that step's event, sent by the connection `o` the delivery is attributed to, with its sender field
-replaced - whatever it contained - by the unique name that was allocated to `o`; no other field
-differs (`withSender` changes the sender only). -/
+that step's event, sent by the connection `o` the delivery is attributed to, after the bus's parse +
+re-marshal step (`remarshal`, which mirrors `parseMessage`, `msg.sender = uniqueName`,
+`_marshal(False, rawBody=...)` against the per-class header tables generated from message.py) under the
+unique name that was ALLOCATED to `o` - whatever the originator wrote in the sender field. -/
 theorem sender_is_true (cfg : Cfg ρ) (hr : cfg.Repaired) (h : List (Event ρ)) (e : Event ρ) (dl : Delivery)
     (hdl : dl ∈ (step cfg (final cfg State.init h) e).2.deliveries) (o : ConnId) (m' : Msg)
     (hw : dl.what = .fwd o m') :
-    ∃ m op n, e = .msg o m op ∧ m' = withSender m (some n) ∧
+    ∃ m op n, e = .msg o m op ∧ m' = remarshal m n ∧ m'.sender = some n ∧
       (o, n) ∈ allocated (exec cfg State.init (h ++ [e])) := by
   obtain ⟨m, op, n, he, hn, hm⟩ := sender_is_true_from hr (final_inv hr Inv.init h) e dl hdl o m' hw
-  refine ⟨m, op, n, he, hm, ?_⟩
+  refine ⟨m, op, n, he, hm, by rw [hm]; exact remarshal_sender m n, ?_⟩
   have := (name_iff_allocated hr (Inv.init (ρ := ρ)) (h ++ [e]) o n).mp (by
     rw [final_append]; exact hn)
   rcases this with h0 | h1
   · simp [nameOf, State.init] at h0
   · exact h1
 
+/-- What the re-marshalling keeps, for EVERY message: type, serial, all three parts of the flags byte,
+destination, body (bytes and byte order); the sender becomes the given name. -/
+theorem remarshal_keeps (m : Msg) (n : Name) :
+    (remarshal m n).mtype = m.mtype ∧ (remarshal m n).serial = m.serial ∧
+    (remarshal m n).noReply = m.noReply ∧ (remarshal m n).noAutoStart = m.noAutoStart ∧
+    (remarshal m n).otherFlags = m.otherFlags ∧ (remarshal m n).dest = m.dest ∧
+    (remarshal m n).body = m.body ∧ (remarshal m n).sender = some n :=
+  ⟨rfl, rfl, rfl, rfl, rfl, remarshal_dest m n, rfl, remarshal_sender m n⟩
+
+/-- "Unchanged except the sender": for a message that carries only the header fields the DBus
+specification lists for its type (the per-class tables) and no field with an unknown code, the
+re-marshalled message differs from the original in the sender field and in nothing else. -/
+theorem unchanged_except_sender (m : Msg) (n : Name) (hc : Canonical m) :
+    remarshal m n = withSender m (some n) :=
+  remarshal_canonical m n hc
+
+/-- ... and for other messages it does not hold (known finding `forward-drops-unknown-header-fields`):
+a method return that also carries PATH and an unknown header field loses both. -/
+theorem remarshal_drops_extra_fields :
+    let m : Msg := { mtype := .ret, serial := 12, noReply := false, noAutoStart := false, otherFlags := 4,
+                     path := some "/p".toList, iface := none, member := none, errorName := none,
+                     replySerial := some 3, dest := some ":1.2".toList, sender := none,
+                     extra := "20:u".toList, body := "s:tok".toList }
+    (remarshal m ":1.1".toList).path = none ∧ (remarshal m ":1.1".toList).extra = [] ∧
+    (remarshal m ":1.1".toList).otherFlags = 4 ∧ ¬ Canonical m := by
+  refine ⟨by decide, by decide, by decide, ?_⟩
+  intro h
+  exact absurd h.1 (by decide)
+
 /-! ## 4. order -/
 
 /-- For every connection `i` and destination `d`: the forwarded messages from `i` for `d`, in the
 order in which they were delivered over the whole history, are - up to the sender field - a
-subsequence of the messages `i` sent to `d`, in the order sent (nothing is reordered, nothing
-is duplicated). -/
+subsequence of (the wire forms of) the messages `i` sent to `d`, in the order sent: nothing is
+reordered, nothing is duplicated.  `wireForm m = eraseSender m` for canonical messages. -/
 theorem order_preserved (cfg : Cfg ρ) (hr : cfg.Repaired) (h : List (Event ρ)) (i : ConnId) (d : Name)
     (hd : d ≠ []) :
     List.Sublist ((arrivedFrom i d (exec cfg State.init h)).map eraseSender)
-      ((sentTo i d h).map eraseSender) :=
+      ((sentTo i d h).map wireForm) :=
   arrived_sublist_sent hr Inv.init h i d hd
 
 /-! ## 5. messages addressed to the bus -/
@@ -104,14 +134,31 @@ theorem order_preserved (cfg : Cfg ρ) (hr : cfg.Repaired) (h : List (Event ρ))
 /-- A message addressed to the bus itself is forwarded to nobody.  If it is a method call the bus
 answers it - exactly one reply, to the caller, carrying the call's serial - when it is the
 connection's first Hello, when the dispatch answers regardless of flags, or when a reply is
-expected; otherwise (no-reply flag) there is no reply. -/
+expected; otherwise (no-reply flag) there is no reply.  The reply of the Hello short-cut goes to the
+caller and its body is the caller's own (allocated) unique name. -/
 theorem bus_calls_answered_not_forwarded (cfg : Cfg ρ) (hr : cfg.Repaired) (h : List (Event ρ)) (i : ConnId)
     (m : Msg) (op : BusOp ρ) (hd : m.dest = some busName) (hl : Live (final cfg State.init h) i) :
     let s := final cfg State.init h
     let r := step cfg s (.msg i m op)
     (∀ dl ∈ r.2.deliveries, dl.what.isFwd = false) ∧
-    r.2.deliveries.filterMap replyOf = (if answered (helloCalled s i) m op then [(i, m.serial)] else []) :=
+    r.2.deliveries.filterMap replyOf = (if answered (helloCalled s i) m op then [(i, m.serial)] else []) ∧
+    (∀ dl ∈ r.2.deliveries, ∀ j nm, helloNameOf dl = some (j, nm) → j = i ∧ nameOf r.1 i = some nm) :=
   bus_calls_from hr (final_inv hr Inv.init h) i m op hd hl
+
+/-- `connectionLost` always completes: in no reachable state does `clientDisconnected` hit a missing
+rule id or a missing client-table entry (the KeyError that would leave the name in `Bus.clients`). -/
+theorem disconnect_completes (cfg : Cfg ρ) (hr : cfg.Repaired) (h : List (Event ρ)) (i : ConnId)
+    (effs : List Effect) :
+    (step cfg (final cfg State.init h) (.disconnect i effs)).2.raised = false := by
+  have inv := final_inv hr (Inv.init (ρ := ρ)) h
+  show (stepDisconnect cfg (final cfg State.init h) i effs).2.raised = false
+  cases hc : (final cfg State.init h).conns[i]? with
+  | none => simp [stepDisconnect, hc]
+  | some c =>
+    by_cases hconn : c.isConnected = false
+    · simp [stepDisconnect, hc, hconn]
+    · have hconn' : c.isConnected = true := by simpa using hconn
+      exact (stepDisconnect_fields cfg _ i effs c hc hconn' (disconnectOk_of_inv inv i c hc hconn')).2.2.2.2.2.2.2
 
 /-! ## 6. broadcast -/
 
@@ -129,22 +176,23 @@ theorem rules_held_by_connected_clients (cfg : Cfg ρ) (hr : cfg.Repaired) (h : 
   exact held_live (final_inv hr Inv.init h) j r hjr
 
 /-- A message without destination (a broadcast signal) sent by a live connection `i`: the deliveries
-of the step are one copy per held rule that matches the message (as delivered, i.e. with the true
-sender), to the rule's holder, in registration order; hence connection `j` receives the signal iff
+of the step are one copy per held rule that matches the message object (all parsed attributes, true
+sender - what `Rule.match` looks at), to the rule's holder, in registration order; hence connection `j` receives the signal iff
 it is connected and holds a matching rule. -/
 theorem broadcast_exact (cfg : Cfg ρ) (hr : cfg.Repaired) (h : List (Event ρ)) (wf : ∀ e ∈ h, e.wf)
     (i : ConnId) (m : Msg) (op : BusOp ρ) (hd : truthy m.dest = false) (hl : Live (final cfg State.init h) i) :
     let r := step cfg (final cfg State.init h) (.msg i m op)
-    let m' := withSender m (nameOf r.1 i)
-    (∃ n, nameOf r.1 i = some n) ∧
-    r.2.deliveries = ((heldAfter h).filter (fun e => cfg.holds e.2 m')).map (fun e => ⟨e.1, .fwd i m'⟩) ∧
-    (∀ j, (∃ dl ∈ r.2.deliveries, dl.to = j) ↔ (Live r.1 j ∧ ∃ p, (j, p) ∈ heldAfter h ∧ cfg.holds p m' = true)) := by
-  intro r m'
+    ∃ n, nameOf r.1 i = some n ∧
+    r.2.deliveries = ((heldAfter h).filter (fun e => cfg.holds e.2 (withSender m (some n)))).map
+      (fun e => ⟨e.1, .fwd i (remarshal m n)⟩) ∧
+    (∀ j, (∃ dl ∈ r.2.deliveries, dl.to = j) ↔
+      (Live r.1 j ∧ ∃ p, (j, p) ∈ heldAfter h ∧ cfg.holds p (withSender m (some n)) = true)) := by
+  intro r
   have inv := final_inv hr (Inv.init (ρ := ρ)) h
   obtain ⟨hheld, hlive⟩ := rules_held_by_connected_clients cfg hr h wf
-  obtain ⟨hn, hdl, hcn⟩ := broadcast_exact_from hr inv i m op hd hl
+  obtain ⟨n, hn, hdl, hcn⟩ := broadcast_exact_from hr inv i m op hd hl
   rw [hheld] at hdl
-  refine ⟨hn, hdl, fun j => ?_⟩
+  refine ⟨n, hn, hdl, fun j => ?_⟩
   show (∃ dl ∈ r.2.deliveries, dl.to = j) ↔ _
   rw [show r.2.deliveries = _ from hdl]
   constructor
@@ -158,7 +206,7 @@ theorem broadcast_exact (cfg : Cfg ρ) (hr : cfg.Repaired) (h : List (Event ρ))
     rw [show connected r.1 j' = connected (final cfg State.init h) j' from hcn j']
     exact hlive j' p hin
   · rintro ⟨_, p, hin, hholds⟩
-    exact ⟨⟨j, .fwd i m'⟩, by
+    exact ⟨⟨j, .fwd i (remarshal m n)⟩, by
       simp only [List.mem_map, List.mem_filter]
       exact ⟨(j, p), ⟨hin, hholds⟩, rfl⟩, rfl⟩
 
@@ -170,7 +218,7 @@ private def nm (s : String) : Name := s.toList
 private def helloMsg (serial : Nat) : Msg :=
   { mtype := .call, serial := serial, noReply := false, noAutoStart := false, path := some busPath,
     iface := some busName, member := some helloMember, errorName := none, replySerial := none,
-    dest := some busName, sender := none, body := nm "nobody" }
+    dest := some busName, sender := none, otherFlags := 0, extra := [], body := nm "nobody" }
 
 private def addMatchMsg (serial : Nat) : Msg :=
   { helloMsg serial with member := some addMatchMember, body := nm "s:rule" }
@@ -178,12 +226,21 @@ private def addMatchMsg (serial : Nat) : Msg :=
 private def callTo (serial : Nat) (dest : Option Name) (forged : Option Name) : Msg :=
   { mtype := .call, serial := serial, noReply := false, noAutoStart := false, path := some (nm "/x"),
     iface := some (nm "org.ex.I"), member := some (nm "Foo"), errorName := none, replySerial := none,
-    dest := dest, sender := forged, body := nm "v:tok" }
+    dest := dest, sender := forged, otherFlags := 4, extra := [], body := nm "v:tok" }
 
 private def sigFrom (serial : Nat) : Msg :=
   { callTo serial none (some (nm ":1.7")) with mtype := .sig }
 
 private def ruleI : SimpleRule := { iface := some (nm "org.ex.I") }
+
+example : Canonical (callTo 5 (some (nm ":1.2")) none) := by unfold Canonical; decide
+example : Canonical (sigFrom 6) := by unfold Canonical; decide
+
+/-- The driver's rule predicate mirrors router.py: a `sender=` constraint is stored and never evaluated
+(known finding `sender-constraint-ignored`): a rule for sender ':1.2' holds for a message from ':1.1'. -/
+theorem sender_constraint_is_ignored :
+    SimpleRule.holds { sender := some (nm ":1.2") } { sigFrom 6 with sender := some (nm ":1.1") } = true := by
+  decide
 
 /-- three clients say Hello; client 2 adds a rule on interface org.ex.I -/
 private def setup : List (Event SimpleRule) :=
@@ -242,9 +299,14 @@ end Txdbus.BusRoute
 #print axioms Txdbus.BusRoute.unicast_exact
 #print axioms Txdbus.BusRoute.owner_unique
 #print axioms Txdbus.BusRoute.sender_is_true
+#print axioms Txdbus.BusRoute.remarshal_keeps
+#print axioms Txdbus.BusRoute.unchanged_except_sender
+#print axioms Txdbus.BusRoute.remarshal_drops_extra_fields
 #print axioms Txdbus.BusRoute.order_preserved
 #print axioms Txdbus.BusRoute.bus_calls_answered_not_forwarded
+#print axioms Txdbus.BusRoute.disconnect_completes
 #print axioms Txdbus.BusRoute.rules_held_by_connected_clients
 #print axioms Txdbus.BusRoute.broadcast_exact
+#print axioms Txdbus.BusRoute.sender_constraint_is_ignored
 #print axioms Txdbus.BusRoute.original_unicast_reaches_rule_holder
 #print axioms Txdbus.BusRoute.original_rule_outlives_its_client
